@@ -59,7 +59,7 @@ def _mk():
     add('negative', lambda x, c: algopy.negative(x), 'neg', lambda x0, c: [], cplx=True, f=lambda z: -z)
     # powers: python int >= 0 (all x0), python int < 0 and float exponents (x0 > 0)
     add('pow_nat', lambda x, c: x ** int(c['r']), 'pownat', lambda x0, c: [], n=lambda c: int(c['r']),
-        prm=lambda rng: {'r': rng.choice([0, 1, 2, 3, 4, 5])}, cplx=True, f=None)
+        prm=lambda rng: {'r': rng.choice([0, 1, 2, 3, 4, 5, 5, 8, 16, 17, 21])}, cplx=True, f=None)
     add('pow_negint', lambda x, c: x ** int(c['r']), 'powreal', lambda x0, c: [x0 ** int(c['r'])], dom='pos',
         params=lambda c: [c['r']], prm=lambda rng: {'r': rng.choice([-1, -2, -3])}, f=None)
     add('pow_real', lambda x, c: x ** float(c['r']), 'powreal', lambda x0, c: [x0 ** float(c['r'])], dom='pos',
@@ -318,7 +318,7 @@ def run(ctx):
     # base points exactly 0 where f is smooth there (every natural exponent of x**k; sin, erf, … )
     zero_ok = [n for n in sorted(TABLE) if TABLE[n]['dom'] in ('any', 'small', 'tan', 'unit')]
     for name in zero_ok:
-        prms = [{'r': r} for r in range(6)] if name == 'pow_nat' else [None]
+        prms = [{'r': r} for r in list(range(6)) + [9, 15, 16, 17, 24]] if name == 'pow_nat' else [None]
         for prm in prms:
             case = gen_case(ctx.rng, ctx.tier, name, False)
             while case['D'] < 2:
